@@ -401,8 +401,8 @@ Theorem reachS2_terminated_all_done fuel x0 joker0 ta r m :
   all_in_output i (r_x r) = true -> forallb all_operations_done (s_jobs (r_x r)) = true.
 Proof.
   intros C Fr H Hout. pose proof (reachS2_output_done _ _ _ _ _ _ C Fr H) as Hod.
-  unfold output_done_b in Hod. unfold all_in_output in Hout. rewrite forallb_forall in *.
-  intros jb Hin. specialize (Hod jb Hin). rewrite (Hout jb Hin) in Hod. exact Hod.
+  unfold all_in_output in Hout. rewrite forallb_forall in *.
+  intros jb Hin. specialize (Hout jb Hin). apply andb_true_iff in Hout. tauto.
 Qed.
 
 End OD.
